@@ -158,6 +158,41 @@ def rewrite_format_concat(text):
     return ''.join(out), c
 
 
+def rewrite_assert_eq(text):
+    """T14: assert_eq!(a, b[, msg]);  ->  if !((a) == (b)) { panic!(msg) }   (assert_eq! expands to core::panicking::assert_failed,
+    which Verus rejects; the comparison and the panic are kept, only the Debug rendering of the operands is lost)"""
+    masked = mask(text)
+    out, last, c = [], 0, 0
+    for m in re.finditer(r'\bassert_eq!\(', masked):
+        if m.start() < last:
+            continue
+        op = m.end() - 1
+        cl = match_close(masked, op)
+        inner = text[op + 1:cl]
+        minner = masked[op + 1:cl]
+        parts, depth, st = [], 0, 0
+        for k, ch in enumerate(minner):
+            if ch in '([{':
+                depth += 1
+            elif ch in ')]}':
+                depth -= 1
+            elif ch == ',' and depth == 0:
+                parts.append(inner[st:k])
+                st = k + 1
+        parts.append(inner[st:])
+        parts = [p_.strip() for p_ in parts if p_.strip()]
+        if len(parts) in (2, 3):
+            msg = parts[2] if len(parts) == 3 else '"assertion `left == right` failed"'
+            out.append(text[last:m.start()])
+            out.append('if !((%s) == (%s)) { panic!(%s) }' % (parts[0], parts[1], msg))
+            last = cl + 1
+            if text[last:last + 1] == ';':
+                last += 1
+            c += 1
+    out.append(text[last:])
+    return ''.join(out), c
+
+
 def module_span(text, modpath):
     """(lo, hi) of the body of nested module a::b::c in text"""
     masked = mask(text)
@@ -336,7 +371,7 @@ def _read_module(base, name, log, depth=0, reduce=None, report=None, relpath=Non
         except Exception:
             return ''
         recs.extend(r)
-        return '%smod %s {\nuse vstd::prelude::*;\n%s\n}\n' % (mm.group(1) or '', subname, t)
+        return 'pub mod %s { /*vx:T3 visibility widened*/\nuse vstd::prelude::*;\n%s\n}\n' % (subname, t)
     src = re.sub(r'(?m)^(pub(?:\([a-z]+\))? )?mod (\w+);\n', inl, src)
     return src, recs
 
@@ -422,6 +457,14 @@ def inline_crate(repo, arg, subs, unit):
                 from splice import LostAnchor
                 raise LostAnchor('inline rewrite_re %s: %r matched %d times, expected %s' % (rule, frm, c, cnt))
             t = dict(rule=rule, frm_regex=frm, to=to, count=c, item=rec['item'])
+            rec['transformations'].append(t)
+            unit.transforms.append(t)
+        elif w[0] == 'assert_eq_to_panic':
+            text, c = rewrite_assert_eq(text)
+            if c == 0:
+                from splice import LostAnchor
+                raise LostAnchor('assert_eq_to_panic: no assert_eq! found')
+            t = dict(rule='T14', what='assert_eq!(a, b, msg) -> if !(a == b) { panic!(msg) }', count=c, item=rec['item'])
             rec['transformations'].append(t)
             unit.transforms.append(t)
         elif w[0] == 'format_concat':
